@@ -407,6 +407,12 @@ def run_check(prop, cfg, tier, seed):
             if erc == 2 or (erc == 1 and rc == 0):
                 rc = erc if rc != 2 else rc
             extra = {"cases": ecases, "distinct": efeats, "counters": ecnt}
+        # A violation that passed every gate (same class twice in the worker, in a fresh process, and
+        # from the written replay file) is a violation even if another candidate of the same run could
+        # not be reproduced (e.g. a hang classified by a wall-clock watchdog on a loaded machine).
+        if rc == 2 and reported:
+            log("note: some candidates failed the reproduction gate (see HARNESS lines); %d violation(s) passed it" % len(reported))
+            rc = 1
         write_evidence(prop, cfg, tier, seed, summaries, known_hit, reported, time.time() - t0, extra)
     finally:
         shutil.rmtree(scratch, ignore_errors=True)
